@@ -84,7 +84,7 @@ def rule_drain(ctx):
     before its delivery can raise, and no handler inside the loop resumes it - otherwise a failure above leaves the
     same element at the head forever (every later frame fails) or the loop spins without consuming (holding its lock)."""
     from ..cfg import edge_region, calls_in
-    ctx.rule("C12.drain", "delivery loops consume before delivering and never resume after a failure", floor=4)
+    ctx.rule("C12.drain", "delivery loops consume before delivering and never resume after a failure", floor=3)
     repo = ctx.repo
     base = repo.cls("yowsup/layers/__init__.py", "YowLayer")
     n_loops = 0
@@ -93,6 +93,8 @@ def rule_drain(ctx):
             continue
         if not any(isinstance(x, ast.While) for x in ast.walk(f)):
             continue
+        from ..repo import inline_self_aliases
+        f, _al = inline_self_aliases(f)
         g = CFG(f)
         qn = c.name + "." + f.name
         for loop in [n for n in g.live if n.kind == "test" and isinstance(n.stmt, ast.While)]:
@@ -124,6 +126,18 @@ def rule_drain(ctx):
                         return True
                 return False
             consumers = [n for n in body if consumes(n)]
+            if state and not consumers:
+                # a read cursor: the loop only advances a local and the consumed prefix is cut off the buffer after the loop.
+                # Unless that cut sits in a `finally`, a delivery that raises skips it: every frame handed up so far is still
+                # in the buffer and is delivered again with the next chunk.
+                body_ids_ = {n.id for n in body}
+                after = [n for n in g.live if n.id not in body_ids_ and n is not loop and n.stmt is not None and n.kind == "stmt" and consumes(n)]
+                in_finally = [n for n in after if n.tag == "exc" or any(isinstance(t, ast.Try) and any(n.stmt is x or any(n.stmt is y for y in ast.walk(x)) for x in t.finalbody) for t in ast.walk(f))]
+                if after:
+                    ctx.check("C12.drain", len(in_finally) == len(after) and bool(in_finally), where(m.relpath, qn, after[0].line), after[0].stmt,
+                              "frames are delivered inside the loop but removed from self.%s only by this statement after it: when a delivery raises, the statement is skipped, the frames already handed up stay in the buffer and are delivered again with the next chunk - and the failing one is retried forever" % "/".join(state),
+                              "the cut runs on every exit of the loop (finally)")
+                    continue
             if not state or not consumers:
                 ctx.undecided("C12.drain", w, loop.stmt, "cannot tell what the loop consumes (state read by the loop test: %s)" % state)
                 continue
